@@ -386,10 +386,14 @@ func genCheatersCase(r *Rand, w *bufio.Writer) {
 	const nv = 7
 	vs := "1:1 2:1 3:1 4:1 5:1 6:1 7:1"
 	emit("vals %s", vs)
-	emit("seal 1 %d %s", 9+r.Intn(3), vs)
-	emit("seal 2 %d %s", 5+r.Intn(3), vs)
+	// the second epoch's set has the reverse canonical order (weights grow with the id)
+	vs2 := "1:1 2:2 3:3 4:4 5:5 6:6 7:7"
+	emit("seal 1 %d %s", 9+r.Intn(3), vs2)
+	emit("seal 2 %d %s", 5+r.Intn(3), vs2)
 	emit("inst 0 3")
 	emit("inst 1 %d", r.Intn(4))
+	emit("inst 2 %d", r.Intn(4)) // stays in epoch 1, is Reset to epoch 2 at the end and receives that epoch's events
+	var ep2 []uint64
 	type head struct{ n, seq, lamport uint64 }
 	next := uint64(1)
 	var all []uint64
@@ -421,6 +425,9 @@ func genCheatersCase(r *Rand, w *bufio.Writer) {
 			emit("build 0 %d c=%d s=%d l=%d p=%s", n, self+1, seq, lamport, pj)
 			res := emit("process 0 %d", n)
 			all = append(all, n)
+			if epoch == 2 {
+				ep2 = append(ep2, n)
+			}
 			// a fork adds a tip, an ordinary event replaces the tip it extends
 			nh := head{n, seq, lamport}
 			replaced := false
@@ -478,8 +485,16 @@ func genCheatersCase(r *Rand, w *bufio.Writer) {
 	for _, n := range all {
 		emit("process 1 %d", n)
 	}
+	// an instance that never saw the first epoch's seal is reset to the second epoch: its blocks must name the
+	// cheaters by the NEW epoch's canonical order
+	emit("reset 2 2 %s", vs2)
+	for _, n := range ep2 {
+		emit("process 2 %d", n)
+	}
 	emit("allblocks 0")
 	emit("allblocks 1")
+	emit("allblocks 2")
 	emit("state 0")
 	emit("state 1")
+	emit("state 2")
 }
